@@ -2,7 +2,7 @@
  * predecessors have released it.
  *
  * -DJDF -DCLS -DCID -DNVAL -DVALS -DMAXDEG=<max total in-degree in the box>
- * linked with the REAL parsec/parsec.c (parsec_update_deps_with_mask/_with_counter and the static
+ * #includes the REAL parsec/parsec.c (parsec_update_deps_with_mask/_with_counter and the static
  * parsec_check_IN_dependencies_with_mask/_with_counter they call); the task class tables
  * (flows, guards, dependencies_goal, flags, update_deps pointer) are the generated ones.
  *
@@ -13,12 +13,17 @@
  * reference in-edges.  Reference cross-check (no real code): ref_indeg(s,f) == number of sources
  * t in the enumeration box with ref_edge(t -> s.f)  (OUT side of the JDF agrees with its IN side).
  */
-#define VP_PTG_NO_ENABLE
-#define VP_PTG_NO_CLASS
 #include "vp_harness.h"
 #include "vp_ptg_pre.h"
 #include VP_STR(JDF.c)
 #include "vp_ptg.h"
+/* the REAL parsec.c, cut down by the driver (spec.py `patches`, re-applied to the current file on
+ * every run) to its dependency-tracking functions: parsec_check_IN_dependencies_with_mask/_counter,
+ * parsec_default/hash_find_deps, parsec_update_deps_with_counter/_mask.  Everything else of parsec.c
+ * is #if 0'ed: CBMC resolves the guard calls `dep->cond->inline_func32(...)` against EVERY function
+ * of the TU with two pointer parameters, and the rest of parsec.c (and the generated hooks, whose
+ * bodies the spec removes with goto-instrument) would all be executed symbolically. */
+#include "parsec/parsec.c"
 #include VP_STR(JDF.ref.h)
 
 #define TASK_T    VP_CAT5(__parsec_, JDF, _, CLS, _task_t)
